@@ -330,12 +330,13 @@ pub fn run_parent(ctx: &Ctx, space_id: &str, space: &dyn Space, cfg: &PoolCfg) -
     let mut slots: Vec<Slot> = (0..nshards).map(|s| spawn_worker(ctx, space_id, s, nshards, 0, cfg, len, 0, &tx)).collect();
     let mut kept: BTreeMap<(String, String, Vec<String>), usize> = BTreeMap::new();
     let mut eof: HashSet<u64> = HashSet::new();
+    let mut pending: std::collections::VecDeque<Msg> = std::collections::VecDeque::new();
     let startup_allowance = Duration::from_secs(120);
     let mut live = nshards;
     while live > 0 {
         // drain messages
         let mut got = false;
-        while let Ok(m) = rx.try_recv() {
+        while let Some(m) = pending.pop_front().or_else(|| rx.try_recv().ok()) {
             got = true;
             match m {
                 Msg::Line(shard, l) => {
@@ -444,8 +445,12 @@ pub fn run_parent(ctx: &Ctx, space_id: &str, space: &dyn Space, cfg: &PoolCfg) -
                 let t0 = Instant::now();
                 while !eof.contains(&shard) && t0.elapsed() < Duration::from_secs(5) {
                     if let Ok(m) = rx.recv_timeout(Duration::from_millis(100)) {
-                        if let Msg::Eof(s) = m {
-                            eof.insert(s);
+                        match m {
+                            Msg::Eof(s) if s == shard => {
+                                eof.insert(s);
+                            }
+                            // messages of other shards (and late lines of this one) must not be lost
+                            other => pending.push_back(other),
                         }
                     }
                 }
